@@ -198,6 +198,8 @@ package route
 //@   ensures !result2 ==> result0 == nil && result1 == nil
 
 //@ func (*baseTree).matchNextSegment
+// termination of the mutually recursive matcher: the cursor never moves left, and the three functions are ranked
+//@   decreases 3 * (len(path) - next)
 //@   props C07 C01 C02 C05
 //@   assert[C02] before matchSubtree#0: noSlash(path[next:next + i]) && path[next + i] == '/'
 //@   assert[C02] before matchLeaf#0: noSlash(path[next:])
@@ -209,6 +211,7 @@ package route
 //@   ensures result1 ==> result0 != nil
 
 //@ func (*baseTree).matchSubtree
+//@   decreases 3 * (len(path) - next) + 2
 //@   props C07 C01 C02 C05
 //@   requires treeWF()
 //@   requires len(segment) <= next - 1 && segment == path[next - 1 - len(segment):next - 1] && path[next - 1] == '/'
@@ -229,6 +232,8 @@ package route
 //@   loop 0 invariant[C01] firstLeaf(t, segment, header, 0) == firstLeaf(t, segment, header, rangeindex + 1)
 
 //@ func (*matchAllTree).matchAll
+//@   decreases 3 * (len(path) - next) + 1
+//@   loop 0 decreases len(path) - next
 //@   props C07 C01 C02 C05
 //@   requires treeWF()
 //@   ensures[C01] result0 == specAll(t, path, next, header, 1) && result1 == (result0 != nil)
